@@ -107,3 +107,62 @@ Lemma nomemo_never_stored rl st k o : r_nomemo rl = true -> memoize ec rl st k o
 Proof. intros H. unfold memoize, memoizable. rewrite H. rewrite andb_false_r. reflexivity. Qed.
 
 End Sem.
+
+(* ---- C04: enabling parse information only ADDS the two reserved entries (at the rule-invocation level) ---- *)
+Section PInfoAdds.
+Variable upper : N -> N.
+Variable ic : icfg.
+Variable lineat : nat -> nat.
+
+Definition with_pinfo (ec : ecfg) (b : bool) : ecfg :=
+  {| memoization := memoization ec; left_recursion := left_recursion ec; prune_on_cut := prune_on_cut ec;
+     memo_cap := memo_cap ec; parseinfo := b; keywords := keywords ec |}.
+
+Definition reserved (k : str) : bool := str_eqb k key_parseinfo || str_eqb k key_parseinfo2.
+
+Lemma ast_get_put_other a k k' v : str_eqb k k' = false -> ast_get (ast_put a k' v) k = ast_get a k.
+Proof.
+  intros H. induction a as [|[k0 v0] a IH]; cbn [ast_put ast_get].
+  - rewrite H. reflexivity.
+  - destruct (str_eqb k' k0) eqn:E0; cbn [ast_get].
+    + rewrite H. destruct (str_eqb k k0) eqn:E1; [|reflexivity].
+      apply str_eqb_eq in E0. apply str_eqb_eq in E1. subst. rewrite str_eqb_refl in H. discriminate.
+    + destruct (str_eqb k k0); [reflexivity|exact IH].
+Qed.
+
+(* what differs between the two configurations after a successful body: nothing but the two reserved keys of a dict node;
+   the keyword check, the action call (same argument: the AST without parse information), success/failure, the end position
+   and whether the action ran are the same *)
+Theorem post_body_parseinfo_only_adds ec act rl r p fb :
+  let on := post_body upper ic (with_pinfo ec true) act lineat rl r p fb in
+  let off := post_body upper ic (with_pinfo ec false) act lineat rl r p fb in
+  snd on = snd off /\
+  match fst on, fst off with
+  | ROk n1 p1, ROk n2 p2 =>
+      p1 = p2 /\
+      match n2 with
+      | VDict a2 => exists a1, n1 = VDict a1 /\ forall k, reserved k = false -> ast_get a1 k = ast_get a2 k
+      | _ => n1 = n2
+      end
+  | RFail, RFail => True
+  | RFatal x, RFatal y => x = y
+  | _, _ => False
+  end.
+Proof.
+  cbv zeta. unfold post_body. cbn [keywords with_pinfo].
+  unfold is_keyword. cbn [keywords with_pinfo].
+  destruct (r_isname rl && match fold fb with
+                          | VStr s => if ignorecase ic then mem_str (map upper s) (map (map upper) (keywords ec)) else mem_str s (keywords ec)
+                          | _ => false end); [split; [reflexivity|exact I]|].
+  destruct (act r (fold fb)) as [v| | |e]; cbn [fst snd]; (split; [reflexivity|]); try exact I; try reflexivity.
+  - unfold with_parseinfo. cbn [parseinfo with_pinfo]. split; [reflexivity|].
+    destruct v as [| | | | | |a| |]; try reflexivity.
+    eexists. split; [reflexivity|]. intros k Hk. unfold reserved in Hk. apply orb_false_iff in Hk. destruct Hk as [H1 H2].
+    rewrite ast_get_put_other by exact H2. rewrite ast_get_put_other by exact H1. reflexivity.
+  - unfold with_parseinfo. cbn [parseinfo with_pinfo]. split; [reflexivity|].
+    destruct (fold fb) as [| | | | | |a| |]; try reflexivity.
+    eexists. split; [reflexivity|]. intros k Hk. unfold reserved in Hk. apply orb_false_iff in Hk. destruct Hk as [H1 H2].
+    rewrite ast_get_put_other by exact H2. rewrite ast_get_put_other by exact H1. reflexivity.
+Qed.
+
+End PInfoAdds.
